@@ -688,6 +688,11 @@ class Run(object):
         else:
             # explicit method name given
             if el is None:
+                if not callable(run):
+                    raise exceptions.LenaTypeError(
+                        "run must be callable if el is None, "
+                        "{} provided".format(run)
+                    )
                 self.run = run
             # may raise if run is not a string
             elif callable(getattr(el, run, None)):
